@@ -29,6 +29,11 @@ def run(tier):
                            'generated programs paused at a random step and resumed a random number of steps later (catalogue shapes: pause at '
                            'steps 2/6/10/14, resume 4 steps later); non-trivial = distinct runs in which the execution was observed PAUSED',
                            _nontrivial, prescribed=True, strict=True,
+                           model_behaviours=lambda d: ec.model_jobs(
+                               d, tier, sims=[(None, 2 if tier == 'quick' else 8, 2, 0, ('pause', 'resume'))],
+                               probes=[('resume_join_never_refreshed', 'diamond_j-1_ok', 'Quiet /\\ wf = "RUNNING" /\\ KF_ResumeJoin', 2, 0, ('pause', 'resume')),
+                                       ('task_started_twice_after_resume', 'chain2', '\\E x \\in Names : ~IsJoin(x) /\\ Len(ax[x]) > 1', 2, 0, ('pause', 'resume')),
+                                       ('resume_with_only_noop', 'cmd_noop', 'Quiet /\\ wf = "RUNNING" /\\ KF_NoopResume', 2, 0, ('pause', 'resume'))]),
                            model_runs=lambda d: ec.catalogue_model_runs(d, tier, ops=1, kinds=('pause', 'resume'), tag='_p1') +
                            ec.catalogue_model_runs(d, tier, ops=2, kinds=('pause', 'resume'), tag='_pr2',
                                                    only=('chain2', 'linear_handled', 'cmd_fail_first') + (('pair_join', 'diamond_j-1_ok') if tier == 'thorough' else ())))
